@@ -228,7 +228,11 @@ def c09(ctx, t0):
         res.append(sc_checks.c09_concurrent_stage(ctx))
     if want(ctx, 'command-line'):
         res.append(sc_checks.c09_cli_stage(ctx))
-    floors = {'cli_entry_obligations': (counters(res, 'cli_entry_obligations'), 2), 'concurrent_entry_obligations': (counters(res, 'concurrent_entry_obligations'), 10), 'concurrent_ops_overlapping': (counters(res, 'concurrent_ops_overlapping'), 10), 'scenarios': (counters(res, 'scenarios'), 8), 'post_ack_states': (counters(res, 'post_ack_states'), 8), 'ordering_obligations': (counters(res, 'ordering_obligations'), 8)}
+    if want(ctx, 'agent-upgrade'):
+        ctx.build_agent()
+        r = ctx.run_child('agent-upgrade', [ctx.build_hx(), 'c09agent'], T(ctx, 300, 900))
+        res.append(sc_checks.c09_agent_postprocess(ctx, r, os.path.join(ctx.work, 'w-agent-upgrade')))
+    floors = {'agent_renames_onto_final_names': (counters(res, 'agent_renames_onto_final_names'), 4), 'cli_entry_obligations': (counters(res, 'cli_entry_obligations'), 2), 'concurrent_entry_obligations': (counters(res, 'concurrent_entry_obligations'), 10), 'concurrent_ops_overlapping': (counters(res, 'concurrent_ops_overlapping'), 10), 'scenarios': (counters(res, 'scenarios'), 8), 'post_ack_states': (counters(res, 'post_ack_states'), 8), 'ordering_obligations': (counters(res, 'ordering_obligations'), 8)}
     return finish(ctx, 'fault_enumeration', res, COMMON_ASSUME + [
         'persistence model as stated in the property (fsync(file) for data, fsync(dir) for entries)',
         'decided on the syscalls one traced execution of each operation made; other code paths of the same operation are covered by the scenario list only'], floors, t0)
